@@ -103,6 +103,9 @@ func (e *Env) parseType(name string) (types.Type, error) {
 	case "ref":
 		return types.Typ[types.Uintptr], nil
 	}
+	if gt := ghostType(name); gt != nil {
+		return gt, nil
+	}
 	ptr := false
 	n := name
 	if strings.HasPrefix(n, "[]") {
@@ -427,6 +430,21 @@ func (vc *FnVC) evalTerm(env *Env, x Expr) (*Val, error) {
 				guards = append(guards, smtAnd(sx("<=", "0", bn), sx("<=", bn, "255")))
 			}
 		}
+		// trigger hygiene: if a bound int variable j indexes a slice s directly (s[j]), quantify over the
+		// absolute index k = off(s)+j instead, so that the memory select carries no arithmetic in its pattern.
+		for _, b := range x.Vars {
+			if b.Type != "int" {
+				continue
+			}
+			if sl := findSliceIndexedBy(x.Body, b.Name); sl != nil {
+				if sv, err := vc.evalTerm(env, sl); err == nil && sv.S != "" {
+					if _, ok := sv.T.Underlying().(*types.Slice); ok {
+						bn := "q!" + b.Name
+						n.vars[b.Name] = &Val{T: tInt, S: sx("-", bn, sx("s.off", sv.S))}
+					}
+				}
+			}
+		}
 		body, err := vc.evalBool(&n, x.Body)
 		if err != nil {
 			return nil, err
@@ -441,6 +459,48 @@ func (vc *FnVC) evalTerm(env *Env, x Expr) (*Val, error) {
 		return &Val{T: tBool, S: fmt.Sprintf("(%s (%s) %s)", q, strings.Join(bs, " "), body)}, nil
 	}
 	return nil, fmt.Errorf("unsupported expression %s", x)
+}
+
+// findSliceIndexedBy returns an expression X such that X[name] occurs in e and X does not mention name.
+func findSliceIndexedBy(e Expr, name string) Expr {
+	var found Expr
+	var walk func(e Expr)
+	mentions := func(e Expr) bool { return containsIdent(e.String(), name) }
+	walk = func(e Expr) {
+		if found != nil || e == nil {
+			return
+		}
+		switch x := e.(type) {
+		case EIndex:
+			if id, ok := x.I.(EIdent); ok && id.Name == name && !mentions(x.X) {
+				found = x.X
+				return
+			}
+			walk(x.X)
+			walk(x.I)
+		case EUnary:
+			walk(x.X)
+		case EBinary:
+			walk(x.L)
+			walk(x.R)
+		case ESel:
+			walk(x.X)
+		case ESlice:
+			walk(x.X)
+			walk(x.Lo)
+			walk(x.Hi)
+		case ECall:
+			for _, a := range x.Args {
+				walk(a)
+			}
+		case EQuant:
+			walk(x.Body)
+		case EOld:
+			walk(x.X)
+		}
+	}
+	walk(e)
+	return found
 }
 
 func (vc *FnVC) selectField(env *Env, v *Val, field string) (*Val, error) {
@@ -516,7 +576,11 @@ func (vc *FnVC) indexVal(env *Env, v, i *Val) (*Val, error) {
 		if k == nil {
 			return nil, fmt.Errorf("unsupported slice element type")
 		}
-		return &Val{T: t.Elem(), S: sx("select", sx("select", vc.get(env.st, k.Name), sx("s.base", v.S)), sx("+", sx("s.off", v.S), i.S))}, nil
+		idx := sx("+", sx("s.off", v.S), i.S)
+		if suf := " " + sx("s.off", v.S) + ")"; strings.HasPrefix(i.S, "(- q!") && strings.HasSuffix(i.S, suf) && !strings.Contains(strings.TrimSuffix(strings.TrimPrefix(i.S, "(- "), suf), " ") {
+			idx = strings.TrimSuffix(strings.TrimPrefix(i.S, "(- "), suf)
+		}
+		return &Val{T: t.Elem(), S: sx("select", sx("select", vc.get(env.st, k.Name), sx("s.base", v.S)), idx)}, nil
 	case *types.Array:
 		return &Val{T: t.Elem(), S: sx("select", v.S, i.S)}, nil
 	case *types.Map:
@@ -672,6 +736,48 @@ func (vc *FnVC) evalCall(env *Env, c ECall) (*Val, error) {
 		}
 		vc.usedCat = true
 		return &Val{T: tString, S: sx("gs.unit", args[0].S)}, nil
+	case "str": // str(b): the bytes of a []byte as a string value
+		if err := evalArgs(); err != nil {
+			return nil, err
+		}
+		if len(args) != 1 || !isByteSlice(args[0].T) {
+			return nil, fmt.Errorf("str() takes a []byte")
+		}
+		return &Val{T: tString, S: vc.bytesStr(env.st, args[0])}, nil
+	case "in": // in(x, S)
+		if err := evalArgs(); err != nil {
+			return nil, err
+		}
+		return &Val{T: tBool, S: sx("select", args[1].S, args[0].S)}, nil
+	case "add", "remove": // add(S, x), remove(S, x)
+		if err := evalArgs(); err != nil {
+			return nil, err
+		}
+		b := "true"
+		if c.Fn == "remove" {
+			b = "false"
+		}
+		return &Val{T: args[0].T, S: sx("store", args[0].S, args[1].S, b)}, nil
+	case "put": // put(M, k, v)
+		if err := evalArgs(); err != nil {
+			return nil, err
+		}
+		return &Val{T: args[0].T, S: sx("store", args[0].S, args[1].S, args[2].S)}, nil
+	case "get": // get(M, k)
+		if err := evalArgs(); err != nil {
+			return nil, err
+		}
+		return &Val{T: tInt, S: sx("select", args[0].S, args[1].S)}, nil
+	case "emptyset":
+		if len(c.Args) != 1 {
+			return nil, fmt.Errorf("emptyset(\"StrSet\")")
+		}
+		sn, _ := c.Args[0].(EStr)
+		gt := ghostType(sn.V)
+		if gt == nil {
+			return nil, fmt.Errorf("unknown set type")
+		}
+		return &Val{T: gt, S: zeroTerm(sortOf(gt))}, nil
 	case "has": // has(m, k): key membership
 		if err := evalArgs(); err != nil {
 			return nil, err
@@ -863,6 +969,16 @@ func (vc *FnVC) modItem(env *Env, item string) (string, string, error) {
 				}
 				k, kerr := vc.fieldKeyByName(t, x.Field)
 				return k, "*", kerr
+			}
+		}
+		if q, ok := x.X.(ESel); ok {
+			if id, ok := q.X.(EIdent); ok {
+				if _, err := env.lookupName(id.Name); err != nil {
+					if t, terr := env.parseType(id.Name + "." + q.Field); terr == nil {
+						k, kerr := vc.fieldKeyByName(t, x.Field)
+						return k, "*", kerr
+					}
+				}
 			}
 		}
 		v, err := vc.evalTerm(env, x.X)
